@@ -21,7 +21,7 @@ from ..workload import REDUCTIONS, build_estimator, gen_dataset
 
 PROPERTY = "C20"
 LEVEL = "exploration"
-TIERS = {"quick": {"runs": 9000, "wall": 300}, "thorough": {"runs": 9000, "wall": 1800, "chunk": 8}}
+TIERS = {"quick": {"runs": 9000, "wall": 300}, "thorough": {"runs": 4000, "wall": 1800, "chunk": 8}}
 RTOL_MODEL = 1e-9  # history-laden object vs fresh model (calibrated: bit-identical)
 RTOL_REPEAT = 1e-12
 
@@ -334,10 +334,12 @@ class History:
         call = (lambda: live.obj.filter(*args)) if name == "filter" else (lambda: live.obj.fit(*args))
         with CallPoints() as cp:
             call()
-        n = min(cp.count, 250)
+        stride = max(1, -(-cp.count // 150))  # every call point up to 150 per fit, else an even stride
+        positions = list(range(0, cp.count, stride))
+        n = len(positions)
         other = self.u.datasets[live.ncomp][(j + 1) % len(self.u.datasets[live.ncomp])]
         oargs = (other.coordinates, other.data_arg(), other.weights_arg())
-        for k in range(n):
+        for k in positions:
             # crash while refitting to OTHER data, then a complete fit on D_j must restore fresh behaviour
             where = f"L{li}.fit(D{(j + 1) % len(self.u.datasets[live.ncomp])}) interrupted@{k} then {name}(D{j})"
             if not self.interrupted(live, lambda: live.obj.fit(*oargs), k, where):
